@@ -22,8 +22,8 @@ type regIssued struct {
 
 // regScript issues registry operations of one kind family ("bind" or "sub") from a peer.
 type regScript struct {
-	w      *World
-	pr     *Proto
+	w        *World
+	pr       *Proto
 	kind     string // "bind" | "sub"
 	issued   []*regIssued
 	listings []*regIssued
@@ -247,7 +247,7 @@ func checkRegLinearizable(w *World, prop string, ops []RegOp, single bool) {
 			ok, ns := regStep(state.(regState), input.(RegOp), single)
 			return ok, ns
 		},
-		Equal: func(a, b interface{}) bool { return a.(regState).String() == b.(regState).String() },
+		Equal:             func(a, b interface{}) bool { return a.(regState).String() == b.(regState).String() },
 		DescribeOperation: func(input, output interface{}) string { return input.(RegOp).String() },
 	}
 	res := porcupine.CheckOperationsTimeout(m, pops, 20*time.Second)
